@@ -347,8 +347,11 @@ pub fn apply_single<P: TP, V: Val>(side: &mut Side<P, V>, op: &Op, env: &mut Env
         Op::Entry { p, act, .. } => apply_entry(side, *p, act, env)?,
         Op::GetMut { p, .. } => {
             let (pp, r) = rs::<P>(env, *p);
+            env.cur_op = "get";
+            let ro = side.map.get(&pp).map(|v| v.id());
             env.cur_op = "get_mut";
             let got = side.map.get_mut(&pp);
+            ensure!(got.as_ref().map(|v| v.id()) == ro, "C13", "C13:get_mut vs get", "step {step}: get_mut({:?}) = {:?} but get = {:?}", r.key(), got.as_ref().map(|v| v.id()), ro);
             let want = side.model.m.get_mut(&r.key());
             ensure!(got.as_ref().map(|v| v.id()) == want.as_ref().map(|s| s.value), "C01", "C01:get_mut", "step {step}: get_mut({:?}) = {:?}, model {:?}", r.key(), got.as_ref().map(|v| v.id()), want.as_ref().map(|s| s.value));
             if let (Some(g), Some(w)) = (got, want) {
@@ -362,7 +365,12 @@ pub fn apply_single<P: TP, V: Val>(side: &mut Side<P, V>, op: &Op, env: &mut Env
             let (pp, r) = rs::<P>(env, *p);
             env.cur_op = "get_lpm_mut";
             let want = side.model.lpm(r.key()).map(|(k, s)| (k, s.repr, s.value));
+            env.cur_op = "get_lpm";
+            let ro = side.map.get_lpm(&pp).map(|(p, v)| (raw_of(p), v.id()));
+            env.cur_op = "get_lpm_mut";
             let got = side.map.get_lpm_mut(&pp);
+            let gr = got.as_ref().map(|(p, v)| (raw_of(*p), v.id()));
+            ensure!(gr == ro, "C13", "C13:get_lpm_mut vs get_lpm", "step {step}: get_lpm_mut({:?}) = {:?} but get_lpm = {:?}", r.key(), gr.map(|x| (x.0.key(), x.1)), ro.map(|x| (x.0.key(), x.1)));
             let g = got.as_ref().map(|(p, v)| (key_of(*p), v.id()));
             ensure!(g == want.map(|w| (w.0, w.2)), "C02", "C02:get_lpm_mut", "step {step}: get_lpm_mut({:?}) = {:?}, model {:?}", r.key(), g, want);
             if let (Some((gp, gv)), Some((k, repr, _))) = (got, want) {
@@ -378,11 +386,11 @@ pub fn apply_single<P: TP, V: Val>(side: &mut Side<P, V>, op: &Op, env: &mut Env
         Op::IterMut { mask, .. } => {
             let lim = iter_limit(&side.model);
             env.cur_op = "iter";
-            let ro: Vec<(Key, u64)> = side.map.iter().take(lim).map(|(p, v)| (key_of(p), v.id())).collect();
+            let ro: Vec<(Raw, u64)> = side.map.iter().take(lim).map(|(p, v)| (raw_of(p), v.id())).collect();
             env.cur_op = "iter_mut";
             let refs: Vec<(&P, &mut V)> = side.map.iter_mut().take(lim).collect();
-            let mu: Vec<(Key, u64)> = refs.iter().map(|(p, v)| (key_of(*p), v.id())).collect();
-            cmp_seq("C13", "iter_mut vs iter", step, &mu, &ro)?;
+            let mu: Vec<(Raw, u64)> = refs.iter().map(|(p, v)| (raw_of(*p), v.id())).collect();
+            ensure!(mu == ro, "C13", "C13:iter_mut vs iter", "step {step}: iter_mut yields {:?}, iter yields {:?}", mu.iter().map(|x| (x.0.key(), x.1)).collect::<Vec<_>>(), ro.iter().map(|x| (x.0.key(), x.1)).collect::<Vec<_>>());
             if refs.len() >= 2 {
                 env.ev("mut_traversal_ge2");
             }
